@@ -172,3 +172,176 @@ theorem evalCmp_adjust (O : Oracle) : ∀ (rs : List Expr) (ov : Option Ctx) (x 
 end
 
 end Malt.Anf
+
+namespace Malt.Anf
+open Malt.Py Malt.SemAnf
+
+/-! ### frame: evaluation only rebinds the targets of `:=` -/
+theorem consArg_snd_get (a : Arg) (r : ER (List Arg)) : (consArg a r).2 = r.2 := by
+  unfold consArg; rcases r with ⟨r1, σ⟩; cases r1 <;> rfl
+
+theorem doCall_get (O : Oracle) (f : Val) (as : List Arg) (σ : St) (y : String) :
+    (doCall O f as σ).2.get y = σ.get y := by
+  unfold doCall
+  split <;> simp [get_emit]
+
+mutual
+theorem evalE_frame (O : Oracle) : ∀ (e : Expr) (σ : St) (y : String), fragE e = true → y ∉ writesE e →
+    (evalE O e σ).2.get y = σ.get y
+  | .name .., σ, y, _, _ => by simp [evalE]
+  | .const .., σ, y, _, _ => by simp [evalE]
+  | .attr i v a c, σ, y, h, hy => by
+      simp only [fragE] at h
+      simp only [writesE] at hy
+      have := evalE_frame O v σ y h hy
+      simp only [evalE]
+      rcases hv : evalE O v σ with ⟨r, σ1⟩
+      rw [hv] at this
+      cases r <;> simpa using this
+  | .subscript i v s c, σ, y, h, hy => by
+      simp only [fragE, Bool.and_eq_true] at h
+      simp only [writesE, List.mem_append, not_or] at hy
+      have h1 := evalE_frame O v σ y h.1 hy.1
+      simp only [evalE]
+      rcases hv : evalE O v σ with ⟨r, σ1⟩
+      rw [hv] at h1
+      cases r with
+      | error x => simpa using h1
+      | ok x =>
+        have h2 := evalE_frame O s σ1 y h.2 hy.2
+        simp only
+        rcases hs : evalE O s σ1 with ⟨r2, σ2⟩
+        rw [hs] at h2
+        cases r2 <;> simp at h2 ⊢ <;> rw [h2] <;> simpa using h1
+  | .call i f as ks, σ, y, h, hy => by
+      simp only [fragE, Bool.and_eq_true, List.isEmpty_iff] at h
+      obtain ⟨⟨hf, ha⟩, rfl⟩ := h
+      simp only [writesE, writesEs, List.append_nil, List.mem_append, not_or] at hy
+      have h1 := evalE_frame O f σ y hf hy.1
+      simp only [evalE]
+      rcases hv : evalE O f σ with ⟨r, σ1⟩
+      rw [hv] at h1
+      cases r with
+      | error x => simpa using h1
+      | ok fv =>
+        have h2 := evalArgs_frame O as σ1 y ha hy.2
+        simp only
+        rcases hs : evalArgs O as σ1 with ⟨r2, σ2⟩
+        rw [hs] at h2
+        cases r2 with
+        | error x => simp at h2 ⊢; rw [h2]; simpa using h1
+        | ok avs =>
+          simp only [evalArgs]
+          simp at h2 ⊢
+          rw [doCall_get, h2]; simpa using h1
+  | .unary i op e, σ, y, h, hy => by
+      simp only [fragE] at h
+      simp only [writesE] at hy
+      have := evalE_frame O e σ y h hy
+      simp only [evalE]
+      rcases hv : evalE O e σ with ⟨r, σ1⟩
+      rw [hv] at this
+      cases r <;> simpa using this
+  | .binop i op l r, σ, y, h, hy => by
+      simp only [fragE, Bool.and_eq_true] at h
+      simp only [writesE, List.mem_append, not_or] at hy
+      have h1 := evalE_frame O l σ y h.1 hy.1
+      simp only [evalE]
+      rcases hv : evalE O l σ with ⟨r1, σ1⟩
+      rw [hv] at h1
+      cases r1 with
+      | error x => simpa using h1
+      | ok x =>
+        have h2 := evalE_frame O r σ1 y h.2 hy.2
+        simp only
+        rcases hs : evalE O r σ1 with ⟨r2, σ2⟩
+        rw [hs] at h2
+        cases r2 <;> simp at h2 ⊢ <;> rw [h2] <;> simpa using h1
+  | .compare i l ops rs, σ, y, h, hy => by
+      simp only [fragE, Bool.and_eq_true] at h
+      obtain ⟨⟨⟨hl, hrs⟩, -⟩, -⟩ := h
+      simp only [writesE, List.mem_append, not_or] at hy
+      have h1 := evalE_frame O l σ y hl hy.1
+      simp only [evalE]
+      rcases hv : evalE O l σ with ⟨r1, σ1⟩
+      rw [hv] at h1
+      cases r1 with
+      | error x => simpa using h1
+      | ok x =>
+        simp only
+        rw [evalCmp_frame O rs x ops σ1 y hrs hy.2]; simpa using h1
+  | .seq i k es c, σ, y, h, hy => by
+      simp only [fragE] at h
+      simp only [writesE] at hy
+      have h2 := evalArgs_frame O es σ y h hy
+      simp only [evalE]
+      rcases hs : evalArgs O es σ with ⟨r2, σ2⟩
+      rw [hs] at h2
+      cases r2 with
+      | error x => simpa using h2
+      | ok avs =>
+        simp only
+        split <;> simpa using h2
+  | .namedexpr i (.name j s c) v, σ, y, h, hy => by
+      simp only [fragE] at h
+      simp only [writesE, namesE, List.mem_append, List.mem_singleton, not_or] at hy
+      have h1 := evalE_frame O v σ y h hy.2
+      simp only [evalE]
+      rcases hv : evalE O v σ with ⟨r1, σ1⟩
+      rw [hv] at h1
+      cases r1 with
+      | error x => simpa using h1
+      | ok x =>
+        simp only [get_set, if_neg hy.1]; simpa using h1
+  | .namedexpr _ (.const ..) _, _, _, h, _ | .namedexpr _ (.attr ..) _, _, _, h, _ | .namedexpr _ (.subscript ..) _, _, _, h, _
+  | .namedexpr _ (.call ..) _, _, _, h, _ | .namedexpr _ (.keyword ..) _, _, _, h, _ | .namedexpr _ (.boolop ..) _, _, _, h, _
+  | .namedexpr _ (.unary ..) _, _, _, h, _ | .namedexpr _ (.binop ..) _, _, _, h, _ | .namedexpr _ (.compare ..) _, _, _, h, _
+  | .namedexpr _ (.ifexp ..) _, _, _, h, _ | .namedexpr _ (.lambda ..) _, _, _, h, _ | .namedexpr _ (.seq ..) _, _, _, h, _
+  | .namedexpr _ (.starred ..) _, _, _, h, _ | .namedexpr _ (.namedexpr ..) _, _, _, h, _ | .namedexpr _ (.comp ..) _, _, _, h, _
+  | .namedexpr _ (.comprehension ..) _, _, _, h, _ | .namedexpr _ (.arguments ..) _, _, _, h, _ | .namedexpr _ (.arg ..) _, _, _, h, _
+  | .namedexpr _ (.withitem ..) _, _, _, h, _ | .namedexpr _ .noneMarker _, _, _, h, _ | .namedexpr _ (.other ..) _, _, _, h, _
+  | .keyword .., _, _, h, _ | .boolop .., _, _, h, _ | .ifexp .., _, _, h, _ | .lambda .., _, _, h, _ | .starred .., _, _, h, _
+  | .comp .., _, _, h, _ | .comprehension .., _, _, h, _ | .arguments .., _, _, h, _ | .arg .., _, _, h, _
+  | .withitem .., _, _, h, _ | .noneMarker, _, _, h, _ | .other .., _, _, h, _ => by simp [fragE] at h
+theorem evalArgs_frame (O : Oracle) : ∀ (es : List Expr) (σ : St) (y : String), fragEs es = true → y ∉ writesEs es →
+    (evalArgs O es σ).2.get y = σ.get y
+  | [], σ, y, _, _ => by simp [evalArgs]
+  | e :: es, σ, y, h, hy => by
+      simp only [fragEs, Bool.and_eq_true] at h
+      simp only [writesEs, List.mem_append, not_or] at hy
+      rw [evalArgs_cons_frag O h.1]
+      have h1 := evalE_frame O e σ y h.1 hy.1
+      rcases hv : evalE O e σ with ⟨r1, σ1⟩
+      rw [hv] at h1
+      cases r1 with
+      | error x => simpa using h1
+      | ok x =>
+        simp only [consArg_snd_get]
+        rw [evalArgs_frame O es σ1 y h.2 hy.2]; simpa using h1
+theorem evalCmp_frame (O : Oracle) : ∀ (rs : List Expr) (x : Val) (ops : List String) (σ : St) (y : String),
+    fragEs rs = true → y ∉ writesEs rs → (evalCmp O x ops rs σ).2.get y = σ.get y
+  | [], x, ops, σ, y, _, _ => by cases ops <;> simp [evalCmp]
+  | r :: rs, x, ops, σ, y, h, hy => by
+      simp only [fragEs, Bool.and_eq_true] at h
+      simp only [writesEs, List.mem_append, not_or] at hy
+      cases ops with
+      | nil => simp [evalCmp]
+      | cons op ops =>
+        simp only [evalCmp]
+        have h1 := evalE_frame O r σ y h.1 hy.1
+        rcases hv : evalE O r σ with ⟨r1, σ1⟩
+        rw [hv] at h1
+        cases r1 with
+        | error x => simpa using h1
+        | ok v =>
+          simp only
+          cases ops with
+          | nil => simpa using h1
+          | cons op2 ops2 =>
+            simp only
+            split
+            · rw [evalCmp_frame O rs _ _ σ1 y h.2 hy.2]; simpa using h1
+            · simpa using h1
+end
+
+end Malt.Anf
